@@ -122,3 +122,72 @@ void h_DUP_count(void) {
     }
     VPOST(c.pCurrComp == &e, "C09: the argument context is restored");
 }
+
+/* ---- positions inside a data statement are (full words, elements in the last word); the abstract value is
+ * words * E + elements with E elements per word (E = 1 when an element fills one or more words).  The helpers must be
+ * exact integer arithmetic on that value and keep positions normalised. ---- */
+#define FVAL(f, E) ((long long)(f).FullWordCnt * (E) + (f).LastWordFill)
+static void mk_fill(tCurrCodeFill* f, int E, long long maxw) { VND(f->FullWordCnt, int); VND(f->LastWordFill, int); VASSUME(f->FullWordCnt >= 0 && f->FullWordCnt <= maxw && f->LastWordFill >= 0 && f->LastWordFill < E); }
+void h_CodeFill_arith(void) {
+    struct sLayoutCtx c; tCurrCodeFill a, b, d; int E, epw; unsigned n; long long va, vb;
+    memset(&c, 0, sizeof(c));
+    VND(epw, int); VASSUME(epw == 0 || epw == 1 || epw == 2 || epw == 4 || epw == 8); c.ElemsPerFullWord = epw; E = epw > 1 ? epw : 1;
+    VND(c.FullWordSize, int); VASSUME(c.FullWordSize >= 1 && c.FullWordSize <= 4);
+    mk_fill(&a, E, 0x7fffffff); mk_fill(&b, E, 0x7fffffff); va = FVAL(a, E); vb = FVAL(b, E);
+    if (va >= vb) {
+        SubCodeFill(&d, &a, &b, &c);
+        VPOST(FVAL(d, E) == va - vb && d.LastWordFill >= 0 && d.LastWordFill < E && d.FullWordCnt >= 0, "C09: SubCodeFill is the exact difference of two positions (end - start of a DUP body), normalised");
+        VREACH("sub");
+        if (a.LastWordFill < b.LastWordFill) VREACH("sub borrow");
+    }
+    if (va + vb <= 0x80000000LL * E - 1) {
+        tCurrCodeFill s = a;
+        IncCodeFillBy(&s, &b, &c);
+        VPOST(FVAL(s, E) == va + vb && s.LastWordFill >= 0 && s.LastWordFill < E, "C09: IncCodeFillBy is the exact sum of position and size, normalised");
+        VREACH("add");
+    }
+}
+
+/* n-fold of a size (body sizes up to 15 words, every count; the caller has made sure the product is representable) */
+void h_CodeFill_mult(void) {
+    struct sLayoutCtx c; tCurrCodeFill d; int E, epw; unsigned n; long long vd;
+    memset(&c, 0, sizeof(c));
+#ifndef VERIF_EPW
+#define VERIF_EPW 1
+#endif
+    epw = VERIF_EPW; c.ElemsPerFullWord = epw; E = epw > 1 ? epw : 1;   /* one group per elements-per-word value */
+    mk_fill(&d, E, 15); vd = FVAL(d, E);
+    VND(n, uint);
+    VASSUME(vd * (long long)n <= 0x80000000LL * E - 1);
+    MultCodeFill(&d, n, &c);
+    VPOST(FVAL(d, E) == vd * (long long)n && d.LastWordFill >= 0 && d.LastWordFill < E && d.FullWordCnt >= 0, "C09: MultCodeFill is the exact n-fold of a size, normalised");
+    VREACH("mult");
+    if (n > 0x40000000u && vd > 0) VREACH("mult large count");
+}
+
+/* ---- n DUP (?,?,?): a reservation of n times the body; a size that cannot be represented is refused, never wrapped ---- */
+void h_DUP_reserve(void) {
+    struct sLayoutCtx c; tStrComp e; static char txt[20]; unsigned long ec; Boolean r; int E, epw; long long v0, want;
+    memset(&c, 0, sizeof(c)); c.LayoutFunc = mon_Layout; c.Replicate = mon_Replicate; c.DSFlag = DSNone;
+    VND(epw, int); VASSUME(epw == 0 || epw == 1 || epw == 2 || epw == 4); c.ElemsPerFullWord = epw; E = epw > 1 ? epw : 1;
+    if (epw > 1) { c.FillIncPerElem.FullWordCnt = 0; c.FillIncPerElem.LastWordFill = 1; }
+    else { VND(c.FillIncPerElem.FullWordCnt, int); VASSUME(c.FillIncPerElem.FullWordCnt >= 1 && c.FillIncPerElem.FullWordCnt <= 10); c.FillIncPerElem.LastWordFill = 0; }
+    mk_fill(&c.CurrCodeFill, E, 1000); v0 = FVAL(c.CurrCodeFill, E);
+    { char const* t = "3 DUP(?,?,?)"; int i; for (i = 0; t[i]; i++) txt[i] = t[i]; txt[i] = 0; e.Pos.Len = i; }
+    e.str.p_str = txt; e.str.capacity = 20; e.str.dynamic = 0; e.Pos.StartCol = 0; c.pCurrComp = &e;
+    VND(g_dup, i64); VASSUME(g_dup >= 1 && g_dup <= 2147483647LL); g_dup_ok = 1;
+    VND(g_err_cnt, ulong); VASSUME(g_err_cnt < 1000000); ec = g_err_cnt;
+    g_body = g_repl = 0;
+    want = v0 + 3 * FVAL(c.FillIncPerElem, E) * g_dup;
+    r = DecodeIntelPseudo_LayoutMult(&e, &c);
+    if (want <= 0x80000000LL * E - 1) {
+        VPOST(r && g_err_cnt == ec && FVAL(c.CurrCodeFill, E) == want && c.CurrCodeFill.LastWordFill >= 0 && c.CurrCodeFill.LastWordFill < E, "C09: n DUP (?,?,?) reserves exactly n times the size of its body");
+        VPOST(c.DSFlag == DSSpace && g_repl == 0, "C09: a DUP of reservations stays a reservation (nothing is replicated)");
+        VREACH("reserved");
+        if (g_dup > 100000) VREACH("large reservation");
+        if (epw > 1 && c.CurrCodeFill.LastWordFill) VREACH("ends inside a word");
+    } else {
+        VPOST(!r && g_err_cnt == ec + 1, "C09: a reservation whose size cannot be represented is an error (no wrap-around to a small size)");
+        VREACH("refused");
+    }
+}
